@@ -27,7 +27,7 @@ CLAIMED = {
    technique=TECH + ": exhaustive single-fault enumeration (truncation, byte corruption) over a frame corpus with a no-raise oracle, plus seeded whole-network runs with a damaging wire and a liveness check after the last fault"),
  "C20": dict(
    level="exploration", design="5/C20",
-   text="Seeded search over per-call socket outcome scripts {accept all, accept k of n, EAGAIN, fatal} x message sequences x thread interleavings: on the controller side the real DeferredSender.run loop runs on an engine-controlled thread against the real Connection.send on the scheduler thread (of_01.py traced at line granularity, real OpenFlow task loop for the closed-exactly-once part); on the switch side the real IO worker/loop with send and send_fast. Invariant at every yield point: bytes accepted by each socket are a prefix of the queued stream; at quiescence after the script ends they are the whole stream; after a fatal error exactly one ConnectionDown / close-handler call.",
+   text="Seeded search over per-call socket outcome scripts {accept all, accept k of n, EAGAIN, fatal} x message sequences x thread interleavings: on the controller side the real DeferredSender.run loop runs on an engine-controlled thread against the real Connection.send on the scheduler thread (of_01.py traced at line granularity, real OpenFlow task loop for the closed-exactly-once part); on the switch side the real IO worker/loop with send and send_fast; exceptional conditions on a socket with a backlog (both sides), peer resets with a backlog, and on the controller side two connections whose backlogs overlap. Invariant at every yield point: bytes accepted by each socket are a prefix of the queued stream; at quiescence after the script ends they are the whole stream; after a fatal error exactly one ConnectionDown / close-handler call.",
    note="Line-granularity pre-emption in of_01.py plus intercepted primitives; scripts sampled; select() on a closed socket raises as the real one does.",
    technique=TECH + ": socket-fault scripts x controlled-thread interleavings with a byte-stream prefix invariant"),
  "C07": dict(
@@ -42,7 +42,7 @@ CLAIMED = {
    technique=TECH + ": stream-corruption fault injection with containment, liveness and termination-budget oracles"),
  "C17": dict(
    level="exploration", design="5/C17",
-   text="Seeded search over port_status histories (add/modify incl. rename and re-address/delete/re-add/delete-unknown over 4 ports) and stats replies split into 1-6 parts interleaved with other messages, abandoned partial replies, part-by-part interleaving and connection loss, over a segmented stream into the real Connection; after every message the full mapping API of con.ports/original_ports is compared with a model dict and aggregated stats events with the parts sent.",
+   text="Seeded search over port_status histories (add/modify incl. rename and re-address/delete/re-add/delete-unknown over 4 ports) and stats replies split into 1-6 parts interleaved with other messages (echo requests, packet-ins, barrier replies, errors about other requests incl. under the pending reply's xid, flow-removed notices, config replies), abandoned partial replies, part-by-part interleaving and connection loss, over a segmented stream into the real Connection; after every message the full mapping API of con.ports/original_ports is compared with a model dict and aggregated stats events with the parts sent.",
    note="Unique names/addresses among current ports; entries identified by a tag field; one open known finding (part-by-part interleaved multipart replies).",
    technique=TECH + ": message-history search against a port-view dict model and a per-xid reassembly model"),
  "C02": dict(
